@@ -466,7 +466,7 @@ impl GenCase {
 		}
 	}
 
-	fn exit_line(rng: &mut Rng, c: u64, g: G, allow_ws_slow: bool) -> String {
+	fn exit_line(rng: &mut Rng, c: u64, g: G) -> String {
 		match g {
 			G::Http => match rng.below(4) {
 				0 => format!("cg habort {c} fin"),
@@ -474,11 +474,7 @@ impl GenCase {
 				_ => format!("cg hdone {c}"),
 			},
 			G::Upg => format!("cg wfail {c} {}", if rng.chance(1, 2) { "drop" } else { "reset" }),
-			G::Ws => {
-				let hows = ["close", "closecall", "reset", "resetcall", "proto"];
-				let _ = allow_ws_slow;
-				format!("cg wclose {c} {}", rng.pick(&hows))
-			}
+			G::Ws => format!("cg wclose {c} {}", rng.pick(&["close", "closecall", "reset", "resetcall", "proto"])),
 		}
 	}
 
@@ -492,29 +488,35 @@ impl GenCase {
 			self.lines.push(format!("cg wdone {c}"));
 			self.live[i].1 = G::Ws;
 		} else {
-			self.lines.push(Self::exit_line(rng, c, g, false));
+			self.lines.push(Self::exit_line(rng, c, g));
 			self.live.remove(i);
 		}
 	}
 
 	fn drain_and_end(&mut self, rng: &mut Rng) {
-		// everything still being served finishes by a random exit; WebSocket sessions last so that
-		// `stop` (which ends the server) can be one of their exits
+		// everything still being served finishes by a random exit.  Pending upgrades either complete
+		// first or fail; WebSocket sessions go last so that `stop` (which ends the server) can be
+		// their common exit.
 		let mut rest: Vec<(u64, G)> = std::mem::take(&mut self.live);
+		for e in rest.iter_mut() {
+			if e.1 == G::Upg && rng.chance(1, 2) {
+				self.lines.push(format!("cg wdone {}", e.0));
+				e.1 = G::Ws;
+			}
+		}
 		rest.sort_by_key(|(_, g)| match g {
 			G::Http => 0,
 			G::Upg => 1,
 			G::Ws => 2,
 		});
-		let by_stop = rng.chance(1, 4);
-		for (c, g) in rest {
-			if g == G::Upg && rng.chance(1, 2) {
-				self.lines.push(format!("cg wdone {c}"));
-				self.lines.push(if by_stop { format!("cg wclose {c} stop") } else { Self::exit_line(rng, c, G::Ws, false) });
-			} else if g == G::Ws && by_stop {
+		// `stop` ends every session of the server at once, so only the very last one may use it
+		let by_stop = rng.chance(1, 3);
+		let last = rest.len().saturating_sub(1);
+		for (i, (c, g)) in rest.into_iter().enumerate() {
+			if g == G::Ws && by_stop && i == last {
 				self.lines.push(format!("cg wclose {c} stop"));
 			} else {
-				self.lines.push(Self::exit_line(rng, c, g, false));
+				self.lines.push(Self::exit_line(rng, c, g));
 			}
 		}
 		self.lines.push("cg end".into());
@@ -546,9 +548,7 @@ fn gen_random_case(rng: &mut Rng, n: u64) -> Vec<String> {
 		}
 		if rng.chance(1, 40) {
 			// an op that does not apply (unknown tag): both sides must answer `noop`
-			g.lines.push(format!("cg {} 999{}", rng.pick(&["hdone", "wdone", "wclose"]), ""));
-			let l = g.lines.pop().unwrap();
-			g.lines.push(if l.starts_with("cg wclose") { format!("{l} close") } else { l });
+			g.lines.push(format!("cg {}", rng.pick(&["hdone 999", "wdone 999", "wclose 999 close", "habort 999 fin", "wfail 999 drop"])));
 		}
 	}
 	g.drain_and_end(rng);
